@@ -28,8 +28,8 @@ RULE = ("cases: (rows, V placement, family, scaling); executions: units x units 
         "outside and on nodes")
 ASSUMPTIONS = ["tables are increasing in wavelength and cover 0.55 micron (the property's precondition)",
                "opacities from finite families (constant, power law, non-monotonic, seed-derived positive)"]
-OPS = ['scale-chi', 'chi-unit', 'wav-unit', 'new-chi', 'pickle', 'new-table', 'table-roundtrip-discarded']
-REQUIRED_CLASSES = ['table-through-a-fits-file', 'queries-not-bracketing-V', 'law-file-replaced-and-read-again', 'query-unsorted-and-2d', 'table-native-in-other-unit', 'history-depth-3', 'history-new-chi-after-query', 'V-between', 'V-on-node', 'V-first', 'V-last', 'outside-zero', 'exact-at-V', 'pickle', 'table', 'file',
+OPS = ['scale-chi', 'chi-unit', 'wav-unit', 'new-chi', 'pickle', 'new-table', 'table-roundtrip-discarded', 'new-wav']
+REQUIRED_CLASSES = ['columns-counted-from-the-end', 'two-laws-on-the-same-arrays', 'table-through-a-fits-file', 'queries-not-bracketing-V', 'law-file-replaced-and-read-again', 'query-unsorted-and-2d', 'table-native-in-other-unit', 'history-depth-3', 'history-new-chi-after-query', 'V-between', 'V-on-node', 'V-first', 'V-last', 'outside-zero', 'exact-at-V', 'pickle', 'table', 'file',
                     'unit-change', 'scaled', 'non-monotonic']
 
 
@@ -109,6 +109,15 @@ def _history(ctx, case, rec):
             new = ct[::-1].copy() + 0.5
             e.chi = new * e.chi.unit
             return e, (wt, (new * e.chi.unit).to(u.cm ** 2 / u.g).value)
+        if op == 'new-wav':
+            # only the wavelength column is replaced (same length, still covering V): the opacities now sit at other wavelengths
+            lo_, hi_ = wt[0], wt[-1]
+            f_lo, f_hi = min(1.0, 0.5 / lo_) if lo_ > 0.5 else 1.0, 1.0
+            new_w = wt * np.linspace(0.93 if wt[0] * 0.93 <= 0.55 else 1.0, 1.07 if wt[-1] * 1.07 >= 0.55 else 1.0, len(wt))
+            if not (new_w[0] <= 0.55 <= new_w[-1]) or np.any(np.diff(new_w) <= 0):
+                return e, model
+            e.wav = (new_w * u.micron).to(e.wav.unit)
+            return e, (new_w, ct)
         if op == 'pickle':
             return pickle.loads(pickle.dumps(e, 2)), model
         if op == 'table-roundtrip-discarded':
@@ -282,6 +291,24 @@ def run_case(ctx, case, rec, d):
             if first:
                 rec.sample({'table_wav_micron': wt[:5], 'table_chi': ct[:5], 'queries_micron': q[:8], 'expected': exp[:8], 'units': sub})
                 first = False
+    # two laws built on the SAME Quantity objects; one of them is then given other columns: the other one is untouched
+    wq, cq = wt * u.micron, ct * case['sc'] * u.cm ** 2 / u.g
+    ea, eb = Extinction(), Extinction()
+    for e_ in (ea, eb):
+        e_.wav = wq
+        e_.chi = cq
+    try:
+        eb.get_av(np.array([0.55, 1.0]) * u.micron)
+        eb.chi = (ct[::-1] * 3.0 + 0.25) * u.cm ** 2 / u.g
+        eb.wav = (wt * np.linspace(0.97 if wt[0] * 0.97 <= 0.55 else 1.0, 1.03 if wt[-1] * 1.03 >= 0.55 else 1.0, len(wt))) * u.micron
+        ra_ = np.asarray(ea.get_av(q * u.micron), float)
+        rec.ev()
+        rec.trans(3)
+        rec.cls('two-laws-on-the-same-arrays')
+        if not np.allclose(ra_, exp, rtol=1e-9, atol=1e-12) or not np.array_equal(wq.value, wt) or not np.array_equal(cq.value, ct * case['sc']):
+            rec.violation('history|get_av-after-other-law-changed', {'shared_arrays': True}, {'problem': 'a law built on the same arrays as another one changed when the other was given new columns', 'got': ra_[:5], 'expected': exp[:5]})
+    except Exception as ex:
+        rec.violation('history|exception', {'shared_arrays': True}, {'type': type(ex).__name__, 'msg': str(ex)[:200]})
     # the text-file reader on a file that is replaced by another law under the same name between two reads
     pth = os.path.join(d, 'law_again.txt')
     for rep_, (w_, c_) in enumerate(((wt, ct), (wt * 1.5, ct[::-1] * 2.0 + 1.0))):
@@ -312,6 +339,11 @@ def run_case(ctx, case, rec, d):
                 sub = {'file_cols': ncol, 'columns': [i, j], 'wav_unit': str(wun), 'chi_unit': str(cun)}
                 try:
                     kw = {} if (i, j) == (0, 1) and ncol == 2 and wun == u.micron else {'columns': (i, j)}
+                    if wun == u.nm and ncol >= 3:
+                        # columns may be counted from the end, as anywhere in python
+                        kw = {'columns': (i - ncol if i % 2 == 0 else i, j - ncol if j % 2 == 1 else j)}
+                        sub['columns'] = list(kw['columns'])
+                        rec.cls('columns-counted-from-the-end')
                     e = Extinction.from_file(path, wav_unit=wun, chi_unit=cun, **kw)
                     w_read = e.wav.to(wun).value
                     c_read = e.chi.to(cun).value
